@@ -10,7 +10,11 @@ RULE = ("clique covers as lists of vertex-id lists: exhaustive over all ordered 
         "cliques drawn from the non-empty subsets of a 4-vertex universe, 0- and 1-based (gapped ones form the malformed "
         "stream), then seeded random covers on 2..9 vertices with size menus incl. non-adjacent sizes ({2,4},{2,5},{1,3,6}), "
         "clique sizes up to 16 ({2,8},{3,9},{2,10,12},...), overlapping cliques, both bases, both construction paths; in a "
-        "quarter of the random cases a SECOND loader object is constructed and kept alive before the first is read; HUB covers: "
+        "quarter of the random cases a SECOND loader object is constructed and kept alive before the first is read; THE "
+        "CALLER KEEPS USING ITS CLIQUE LISTS: in a third of the valid exhaustive / hub covers and 40% of the random ones a second "
+        "cover `first[drop:] + extra` (drop in 0..2; 1-3 further cliques over old and up to 3 new vertices; the inner lists are the "
+        "very objects the first loader received) is loaded afterwards through the other construction path, compared with the "
+        "model and judged by c08_check against the second cover AS WRITTEN (the first loader is read again too); HUB covers: "
         "one or two vertices in 100..600 cliques of one size (127/128/129, 255/256/257, 511/512/513, ...; stars of 2-cliques "
         "and fans of 3-/4-cliques over few leaves, a second size through the same hub, randomly relabelled), and 1 (quick) / 3 "
         "(thorough) covers with a vertex in 65535..70000 three-cliques; SAMPLING STEP on a third of the valid random covers, "
@@ -76,6 +80,10 @@ def corpus():
     big = [list(range(8)), [7, 8]]
     out.append({"cover": big, "path": 0})                                       # sizes {2,8}
     out.append({"cover": [[0, 1], [1, 2, 3]], "path": 0, "other": [[0, 1, 2, 3], [3, 4]]})  # two live loaders
+    # the caller refines a loaded 1-based cover (`base + extra`, inner lists shared) and loads the refinement
+    out.append({"cover": [[1, 2, 3], [3, 4, 5], [5, 6, 7], [1, 7]], "path": 0,
+                "then": {"drop": 0, "extra": [[7, 8], [8, 9, 1, 4]]}})
+    out.append({"cover": [[0, 1, 2], [2, 3]], "path": 1, "then": {"drop": 1, "extra": [[3, 4], [0, 4, 1]]}})
     return out
 
 
@@ -177,6 +185,31 @@ def _sample_step(rng, cover):
     return {"N": N, "draws": [rng.randrange(1000) for _ in range(N)], "rs": rs}
 
 
+def _second(cover, then):
+    """the cover the caller builds for the SECOND loader, as the caller wrote it: the clique lists of the first cover
+    (from position `drop` on) followed by further cliques"""
+    return [list(c) for c in cover[then.get("drop", 0):]] + [list(c) for c in then["extra"]]
+
+
+def _then_step(rng, cover):
+    """THE CALLER KEEPS USING ITS CLIQUE LISTS AFTER LOADING: a refinement `base + extra` (shallow: the inner lists are the
+    very objects the first loader received), sometimes a sub-cover + extra; extra cliques use old vertices and up to 3 new
+    ones (contiguous after the old ids, so that the second cover is valid in the same base as written)"""
+    ids = sorted({v for c in cover for v in c})
+    b, n = ids[0], len(ids)
+    pool = list(range(b, b + n + rng.randint(0, 3)))
+    extra = []
+    for _ in range(rng.randint(1, 3)):
+        extra.append(rng.sample(pool, rng.randint(1, min(len(pool), 5))))
+    new = sorted({v for c in extra for v in c if v >= b + n})
+    mp = {v: b + n + i for i, v in enumerate(new)}
+    extra = [[mp.get(v, v) for v in c] for c in extra]
+    then = {"drop": rng.choice([0, 0, 0, 1, 2]) if len(cover) > 1 else 0, "extra": extra}
+    if not is_valid(_second(cover, then)):
+        then["drop"] = 0
+    return then
+
+
 def generate(rng, tier):
     maxc = 2 if tier == "quick" else 3
     j = 0
@@ -187,6 +220,8 @@ def generate(rng, tier):
                 c = {"cover": [[v + base for v in c] for c in cs], "path": (k + base) % 2}
                 if j % 5 == 0 and is_valid(c["cover"]):
                     c["sample"] = _sample_step(rng, c["cover"])
+                if j % 3 == 1 and is_valid(c["cover"]):
+                    c["then"] = _then_step(rng, c["cover"])
                 yield c
     nrand = 700 if tier == "quick" else 6000
     for i in range(nrand):
@@ -198,6 +233,8 @@ def generate(rng, tier):
             c["other"] = _compress(_random_cover(rng), rng.randint(0, 1))
         if i % 3 == 0:
             c["sample"] = _sample_step(rng, c["cover"])
+        if i % 5 in (1, 2) and is_valid(c["cover"]):
+            c["then"] = _then_step(rng, c["cover"])
         yield c
     # hub covers: a vertex in hundreds of cliques of one size
     for i in range(24 if tier == "quick" else 150):
@@ -205,6 +242,8 @@ def generate(rng, tier):
         c = {"cover": _compress(cov, rng.randint(0, 1)), "path": rng.randint(0, 1)}
         if i % 2 == 0:
             c["sample"] = _sample_step(rng, c["cover"])
+        if i % 3 == 1 and is_valid(c["cover"]):
+            c["then"] = _then_step(rng, c["cover"])
         yield c
     # ... and past the 16-bit threshold: a vertex in 65535..70000 three-cliques over ~375 leaves (about 6 s of driver time each)
     for i in range(1 if tier == "quick" else 3):
@@ -295,10 +334,14 @@ def impl(case):
         other = None
         if case.get("other"):
             other = JointDegreeCover({JointDegreeNames.COVER: copy.deepcopy(case["other"])})
-    jdd = []
-    for k, v in jd.jdd.items():
-        tag = 1 if (isinstance(k, tuple) and all(type(x) is int for x in k)) else 0
-        jdd.append([[int(x) for x in k], core.q_tree(v), tag])
+    def table(loader):
+        rows = []
+        for k, v in loader.jdd.items():
+            tag = 1 if (isinstance(k, tuple) and all(type(x) is int for x in k)) else 0
+            rows.append([[int(x) for x in k], core.q_tree(v), tag])
+        return rows
+
+    jdd = table(jd)
     obs = {"sizes": [int(s) for s in jd.motif_sizes], "jdd": jdd, "cover_unchanged": cover == case["cover"],
            "n_sizes_type": type(jd.motif_sizes).__name__, "random_calls_constructing": len(script.unexpected)}
     if case.get("sample") and is_valid(case["cover"]):
@@ -306,8 +349,32 @@ def impl(case):
         after = [[[int(x) for x in k], core.q_tree(v)] for k, v in jd.jdd.items()]
         obs["jdd_unchanged_by_sampling"] = after == [[k, q] for k, q, _ in jdd] and \
             [int(s) for s in jd.motif_sizes] == obs["sizes"]
+    if case.get("then") and is_valid(case["cover"]):
+        # the caller goes on using ITS objects: the second cover shares the inner clique lists with the first one; the
+        # second loader is judged against the second cover AS THE CALLER WROTE IT
+        th = case["then"]
+        second = cover[th.get("drop", 0):] + copy.deepcopy(th["extra"])
+        try:
+            with oracles.lenient_scripted(oracles.LenientScript([], seed=1)):
+                if case.get("path", 0) == 1:
+                    jd2 = JointDegreeCover({JointDegreeNames.COVER: second})
+                else:
+                    jd2 = JointDegreeDistribution.load_joint_degree(
+                        {JointDegreeNames.JOINT_DEGREE_TYPE: "cover", JointDegreeNames.COVER: second})
+            obs["then"] = {"exc": None, "sizes": [int(x) for x in jd2.motif_sizes], "jdd": table(jd2),
+                           "covers_unchanged": cover == case["cover"] and second == _second(case["cover"], th),
+                           # the first loader, read again while the second one is alive
+                           "first_again": [[int(x) for x in jd.motif_sizes], table(jd)] == [obs["sizes"], jdd]}
+        except core.ImplTimeout:
+            raise
+        except Exception as e:  # noqa: BLE001
+            obs["then"] = {"exc": type(e).__name__}
     del other
     return obs
+
+
+def _has_then(case):
+    return bool(case.get("then")) and is_valid(case["cover"])
 
 
 def _has_sample(io):
@@ -322,6 +389,8 @@ def _c05_args(case, io):
 
 def model_calls(case, impl_obs):
     calls = [("c08_run", case["cover"])]
+    if _has_then(case):
+        calls.append(("c08_run", _second(case["cover"], case["then"])))
     if _has_sample(impl_obs):
         # the sampling step of the model (Model/Sample.v) on the distribution and sizes the loader reports (these are tied
         # to the cover by the first call), with the oracle answers the implementation received
@@ -335,8 +404,14 @@ def model_obs(case, raws):
     if r[0] == -1:
         return ["!exc", ERR.get(r[1], str(r[1]))]
     mo = {"sizes": r[1], "rows": r[2], "jdd": [[k, q] for k, q in r[3]]}
-    if len(raws) > 1:
-        r2 = raws[1]
+    nxt = 1
+    if _has_then(case):
+        rt = raws[1]
+        mo["then"] = ["!exc", ERR.get(rt[1], str(rt[1]))] if rt[0] == -1 else \
+            {"sizes": rt[1], "jdd": [[k, q] for k, q in rt[3]]}
+        nxt = 2
+    if len(raws) > nxt:
+        r2 = raws[nxt]
         mo["sample"] = ["!exc", ERR.get(r2[1], str(r2[1]))] if r2[0] == -1 else {"call": r2[1], "out": r2[3], "log": r2[4]}
     return mo
 
@@ -346,17 +421,23 @@ def compare(case, io, mo):
         if core.is_exc(io) and core.is_exc(mo):
             return None if io[1] == mo[1] else f"exception class: impl {io[1]} model {mo[1]}"
         return f"impl {io if core.is_exc(io) else 'returned'} / model {mo if core.is_exc(mo) else 'returned'}"
-    if io["sizes"] != mo["sizes"]:
-        return f"motif_sizes: impl {io['sizes']} model {mo['sizes']}"
-    im = {tuple(k): core.tree_q(q) for k, q, _ in io["jdd"]}
-    mm = {tuple(k): core.tree_q(q) for k, q in mo["jdd"]}
-    if set(im) != set(mm):
-        return f"jdd keys: impl {sorted(im)} model {sorted(mm)}"
-    for k in mm:
-        if not core.close(im[k], mm[k]):
-            return f"jdd[{k}]: impl {float(im[k])} model {mm[k]}"
-    if not all(t for _, _, t in io["jdd"]):
-        return "a jdd key is not a tuple of ints"
+    d = _cmp_loader(io, mo, "")
+    if d:
+        return d
+    if "then" in io:
+        w = "second loader (the caller's clique lists re-used after the first loading): "
+        it, mt = io["then"], mo.get("then")
+        if it["exc"] is not None or mt is None or core.is_exc(mt):
+            if not (it["exc"] is not None and core.is_exc(mt) and it["exc"] == mt[1]):
+                return w + f"impl {'raised ' + it['exc'] if it['exc'] else 'returned'}, model {mt if core.is_exc(mt) else 'returned'}"
+        else:
+            d = _cmp_loader(it, mt, w)
+            if d:
+                return d
+            if not it["covers_unchanged"]:
+                return w + "the caller's covers were mutated"
+            if not it["first_again"]:
+                return w + "the first loader's jdd / motif sizes changed when the second loader was built"
     if not io["cover_unchanged"]:
         return "the caller's cover was mutated"
     if io["random_calls_constructing"]:
@@ -388,6 +469,21 @@ def compare(case, io, mo):
     return None
 
 
+def _cmp_loader(io, mo, w):
+    if io["sizes"] != mo["sizes"]:
+        return w + f"motif_sizes: impl {io['sizes']} model {mo['sizes']}"
+    im = {tuple(k): core.tree_q(q) for k, q, _ in io["jdd"]}
+    mm = {tuple(k): core.tree_q(q) for k, q in mo["jdd"]}
+    if set(im) != set(mm):
+        return w + f"jdd keys: impl {sorted(im)} model {sorted(mm)}"
+    for k in mm:
+        if not core.close(im[k], mm[k]):
+            return w + f"jdd[{k}]: impl {float(im[k])} model {mm[k]}"
+    if not all(t for _, _, t in io["jdd"]):
+        return w + "a jdd key is not a tuple of ints"
+    return None
+
+
 C05_CLAUSES = ["valid-shape (one column per reported size, sizes positive)", "choices-call (the jdd's keys, values, k=N)",
                "rows(length N, non-negative, never below the draw)",
                "columns(added = (s - S mod s) mod s, total divisible by the reported clique size)",
@@ -403,7 +499,16 @@ def check_calls(case, io):
         keys, wts, sizes, N = _c05_args(case, io)
         so = io["sample"]
         calls.append(("c05_check", [keys, wts, sizes, N, so["call"], so["rlog"], so["out"]]))
+    if _then_judged(case, io):
+        # LAST call: the second loader's output against the second cover as the caller wrote it
+        it = io["then"]
+        calls.append(("c08_check", [_second(case["cover"], case["then"]), it["sizes"], [[k, q] for k, q, _ in it["jdd"]]]))
     return calls
+
+
+def _then_judged(case, io):
+    return _has_then(case) and isinstance(io, dict) and "then" in io and io["then"]["exc"] is None \
+        and is_valid(_second(case["cover"], case["then"]))
 
 
 def check_verdict(case, io, raws):
@@ -430,6 +535,16 @@ def check_verdict(case, io, raws):
                     "rejected: " + "; ".join(bad))
         if not all(so["tags"]):
             return f"sampling step: entry {so['tags'].index(0)} of the sample is not a tuple of ints"
+    if _has_then(case) and "then" in io and is_valid(_second(case["cover"], case["then"])):
+        w = "second loader, built from the caller's own clique lists after the first loading (cover as written: " \
+            f"{_second(case['cover'], case['then'])[:8]}): "
+        it = io["then"]
+        if it["exc"] is not None:
+            return w + f"raised {it['exc']} on a valid cover"
+        if not all(t for _, _, t in it["jdd"]):
+            return w + "a jdd key is not a tuple of ints"
+        if raws[-1] != 1:
+            return w + "c08_check (sizes = occurring clique sizes ascending; jdd = empirical law of per-vertex counts) rejected"
     return None
 
 
@@ -454,7 +569,19 @@ def shrink(case):
             yield dict(case, sample=dict(st, rs=[0] * len(st["rs"])))
         if any(st["draws"]):
             yield dict(case, sample=dict(st, draws=[0] * len(st["draws"])))
+    th = case.get("then")
+    if th:
+        yield {k: v for k, v in case.items() if k != "then"}
+        if th.get("drop", 0):
+            yield dict(case, then=dict(th, drop=0))
+        for i in range(len(th["extra"])):
+            if len(th["extra"]) > 1:
+                yield dict(case, then=dict(th, extra=th["extra"][:i] + th["extra"][i + 1:]))
     for c in _shrink_cover(case):
+        if th:
+            if not (is_valid(c["cover"]) and is_valid(_second(c["cover"], th))):
+                continue
+            c["then"] = th
         if case.get("sample"):
             if not is_valid(c["cover"]):
                 continue
@@ -506,12 +633,16 @@ def case_base(cov):
 
 def describe(case, io):
     return {"cover": case["cover"], "path(0=direct,1=dispatcher)": case.get("path", 0),
+            "second_cover_sharing_the_clique_lists": _second(case["cover"], case["then"]) if case.get("then") else None,
+            "second_loader": None if core.is_exc(io) or "then" not in io else
+            (io["then"]["exc"] or {"sizes": io["then"]["sizes"],
+                                   "jdd": [[k, str(Fraction(*q))] for k, q, _ in io["then"]["jdd"]][:8]}),
             "impl": io if core.is_exc(io) else {"sizes": io["sizes"], "jdd": [[k, str(Fraction(*q))] for k, q, _ in io["jdd"]][:8]}}
 
 
 def histogram(cases):
     h = {"valid": 0, "malformed": 0, "one_based": 0, "nonadjacent_sizes": 0, "dispatcher_path": 0, "max_cliques": 0,
-         "sampling_step": 0, "max_cliques_of_one_size_through_a_vertex": 0, "vertex_in_>=256_cliques_of_one_size": 0}
+         "sampling_step": 0, "second_loader_from_the_callers_clique_lists": 0, "max_cliques_of_one_size_through_a_vertex": 0, "vertex_in_>=256_cliques_of_one_size": 0}
     for c in cases:
         cov = c["cover"]
         if is_valid(cov):
@@ -526,6 +657,7 @@ def histogram(cases):
         h["dispatcher_path"] += c.get("path", 0)
         h["max_cliques"] = max(h["max_cliques"], len(cov))
         h["sampling_step"] += 1 if c.get("sample") else 0
+        h["second_loader_from_the_callers_clique_lists"] += 1 if c.get("then") else 0
         if len(cov) >= 100:
             import collections
             m = max(collections.Counter((v, len(x)) for x in cov for v in x).values())
